@@ -194,8 +194,12 @@ def reference(spec, P, drop_last_of=None):
     return w.run(spec["exprs"], drop_last_of=drop_last_of)
 
 
-def solve_any(conds, timeout_ms=120000):
+DEFAULT_TIMEOUT_MS = [120000]
+
+
+def solve_any(conds, timeout_ms=None):
     """-> ('unsat'|'sat'|'unknown', model, seconds)"""
+    timeout_ms = timeout_ms or DEFAULT_TIMEOUT_MS[0]
     t0 = time.time()
     conds = [c for c in conds if c is not False]
     if not conds:
@@ -382,7 +386,34 @@ def classify(whats):
     return "+".join(sorted(ks))
 
 
+class Budget(Exception):
+    pass
+
+
 def work_equiv(spec, metrics=False, twin=True, targets=None, total=False):
+    """see _work_equiv; specs may carry 'timeout_ms' (per solver query) and 'budget_s' (whole job, wall clock)"""
+    import signal
+    old_t = DEFAULT_TIMEOUT_MS[0]
+    DEFAULT_TIMEOUT_MS[0] = int(spec.get("timeout_ms", old_t))
+    budget = int(spec.get("budget_s", 0))
+
+    def onalarm(signum, frame):
+        raise Budget()
+    if budget:
+        old_h = signal.signal(signal.SIGALRM, onalarm)
+        signal.alarm(budget)
+    try:
+        return _work_equiv(spec, metrics, twin, targets, total)
+    except Budget:
+        return {"name": spec["name"], "status": "inconclusive", "why": "job budget of %d s exceeded" % budget}
+    finally:
+        DEFAULT_TIMEOUT_MS[0] = old_t
+        if budget:
+            signal.alarm(0)
+            signal.signal(signal.SIGALRM, old_h)
+
+
+def _work_equiv(spec, metrics=False, twin=True, targets=None, total=False):
     """compile + decide + vacuity twin + concrete replay; JSON-able verdict.
     total: every member of the family is a legal specification that the pinned compiler accepts,
     so a refusal to compile is itself a violation ('yields a program')."""
